@@ -5,12 +5,13 @@
 
 namespace mon {
 
-enum EState : uint8_t { E_NONE = 0, E_CALLER = 1, E_QUEUE = 2, E_CONSUMER = 3 };
+enum EState : uint8_t { E_NONE = 0, E_CALLER = 1, E_PUSHING = 2, E_QUEUE = 3, E_CONSUMER = 4 };
 
 struct ERec {
   uint8_t state = E_NONE;
   uint8_t dtors = 0;
   bool dtor_expected = false;
+  bool dtor_during_push = false;
 };
 
 struct ElemRegistry {
@@ -36,19 +37,28 @@ struct ElemRegistry {
       err("elem-harness", hz::fmt("id %" PRId64 " created twice", id));
     r.state = E_CALLER;
   }
-  void to_queue(int64_t id) {
+  // the value is handed to a push/try_push call (it may already be popped by somebody else before the call returns)
+  void pushing(int64_t id) {
     xrt::Quiet q;
     ERec& r = m[id];
     if (r.state == E_CALLER)
-      r.state = E_QUEUE;
+      r.state = E_PUSHING;
   }
-  void back_to_caller(int64_t id) {
+  void push_returned(int64_t id, bool accepted) {
     xrt::Quiet q;
     ERec& r = m[id];
-    if (r.state == E_QUEUE)
-      r.state = E_CALLER;
-    else
-      err("elem-rejected-but-consumed", hz::fmt("value %" PRId64 " was rejected by try_push but is in state %d", id, r.state));
+    if (accepted) {
+      if (r.state == E_PUSHING) {
+        r.state = E_QUEUE;
+        if (r.dtor_during_push)
+          err("elem-destroyed-in-queue", hz::fmt("value %" PRId64 " was destroyed during the push that accepted it", id));
+      }
+    } else {
+      if (r.state == E_PUSHING)
+        r.state = E_CALLER;
+      else
+        err("elem-rejected-but-consumed", hz::fmt("value %" PRId64 " was rejected by try_push but is in state %d", id, r.state));
+    }
   }
   // a successful pop handed `id` to a consumer
   void to_consumer(int64_t id) {
@@ -81,6 +91,8 @@ struct ElemRegistry {
       err("elem-destroyed-after-handout", hz::fmt("value %" PRId64 " was destroyed by the queue after a pop returned it", id));
     else if (r.state == E_QUEUE && !queue_dying && !r.dtor_expected)
       err("elem-destroyed-in-queue", hz::fmt("value %" PRId64 " was destroyed while stored in the live queue", id));
+    else if (r.state == E_PUSHING && !r.dtor_expected)
+      r.dtor_during_push = true; // legal only if the push rejects the value (by-value parameter destroyed)
   }
   bool alive(int64_t id) {
     auto it = m.find(id);
